@@ -616,6 +616,26 @@ def run_c17(tier, seed, wd, info, verdict, with_nonpeers=False):
         project_calls(sc["id"], sc, evs, lines, peers)
         ncalls += len(sc["calls"])
         index.append((start, len(lines), sc["id"]))
+    # CONCURRENT ARRIVAL of prepare messages for ONE name: 25 rounds of eight genuine peers' prepares released at the same moment (after a
+    # short storm of other messages); exactly one per round may be accepted, whatever the interleaving (SessionTrace.ConcPrepare)
+    psc = [dict(id="C17-sameprep-%d" % i, ids=ids_, n=len(ids_), t=2, initiator=ids_[0], account="DW/x", generate=False, storm_ms=150, storm_workers=2)
+           for i, ids_ in enumerate(([1, 2, 3], [4, 5, 6, 7]) if tier == "quick" else ([1, 2, 3], [4, 5, 6, 7], [1, 2], [3, 5, 2 ** 40]))]
+    pby = run_parallel(psc, wd, "c17sameprep", workers=len(psc))
+    nrounds = 0
+    for sc in psc:
+        evs = pby.get(sc["id"])
+        if evs is None:
+            raise Inconclusive("scenario %s produced no events" % sc["id"])
+        start = len(lines) + 1
+        lines.append(dict(ev="Begin", sc=sc["id"]))
+        for e in evs:
+            if e["ev"] == "ConcPrepare":
+                nrounds += 1
+                lines.append(dict(ev="ConcPrepare", account=e["account"], accepted=e["accepted"], of=e["of"]))
+        index.append((start, len(lines), sc["id"]))
+    if nrounds < 20:
+        raise Inconclusive("same-name prepare rounds: only %d rounds were run" % nrounds)
+    scs = scs + psc
     inv = ["Lifecycle", "PeersOnly"] if with_nonpeers else ["Lifecycle"]
     ok, violated, pos, extra = validate("SessionTrace", lines, inv, wd)
     tr = extra if ok else extra[0]
@@ -628,7 +648,7 @@ def run_c17(tier, seed, wd, info, verdict, with_nonpeers=False):
         verdict.violation("%s:%s" % (violated, extra[1][:120]),
                           "message sequence %s on the real process service: rejected by SessionTrace invariant %s %s" % (sid, violated, extra[1]),
                           dict(scenario=sc, trace=seg, invariant=violated, module="SessionTrace"))
-    return dict(transitions_in_table=len(table), transitions_replayed=len(scs), of_which_against_dirk_binaries=len(bscs), unreachable_rows=unreachable, calls=ncalls, trace_events=len(lines),
+    return dict(transitions_in_table=len(table), transitions_replayed=len(scs) - len(psc), same_name_prepare_rounds=nrounds, of_which_against_dirk_binaries=len(bscs), unreachable_rows=unreachable, calls=ncalls, trace_events=len(lines),
                 sample=lines[index[0][0] - 1:index[0][1]][:10])
 
 
